@@ -95,6 +95,24 @@ def mbox_msg_path(mbox: MH, x: int | str | None = None) -> Path:
 
 ####################################################################
 #
+def unstorable_keywords(flags: list[str]) -> list[str]:
+    """
+    Keywords are stored as MH sequences under their own name. Return the
+    keywords in `flags` that can not be stored that way: the ones spelled like
+    a sequence that stands for a system flag (`Seen`, `Deleted`, `Recent`,
+    `replied`, ...) or like `unseen`, which would silently turn in to that
+    system flag, and the ones `.mh_sequences` can not hold (a `:` ends the
+    sequence name and the file is written as ASCII.)
+    """
+    return [
+        x
+        for x in flags
+        if x in SYSTEM_FLAG_MAP or x == "unseen" or ":" in x or not x.isascii()
+    ]
+
+
+####################################################################
+#
 def intersect(a: IMAPClientCommand, b: IMAPClientCommand) -> bool:
     """
     A helper function that determines if the msg_set_as_set for two
@@ -1957,9 +1975,7 @@ class Mailbox:
         # A keyword spelled like the MH sequence of a system flag would turn
         # in to that system flag (see `store()`).
         #
-        reserved = [
-            x for x in (flags or []) if x in SYSTEM_FLAG_MAP or x == "unseen"
-        ]
+        reserved = unstorable_keywords(flags or [])
         if reserved:
             raise No(f"Reserved keyword(s): {' '.join(reserved)}")
 
@@ -2560,7 +2576,7 @@ class Mailbox:
         # flag (`Seen`, `Deleted`, `Recent`, `replied`, ...) or like `unseen`
         # would silently turn in to that system flag.
         #
-        reserved = [x for x in flags if x in SYSTEM_FLAG_MAP or x == "unseen"]
+        reserved = unstorable_keywords(flags)
         if reserved:
             raise No(f"Reserved keyword(s): {' '.join(reserved)}")
 
